@@ -48,10 +48,15 @@ type Gen struct {
 	MaxDels  int
 	nextAddr uint64
 	lastOK   *Op // last successful withdrawal, to replay it ("withdraw twice")
+	mbW      int // weight of max-block-proposers changes
 }
 
 func NewGen(r *hx.Rand, g Cfg) *Gen {
-	return &Gen{R: r, G: g, Target: r.Range(3, 12), MaxDels: r.Range(0, 30), nextAddr: 0xa0}
+	gn := &Gen{R: r, G: g, Target: r.Range(3, 12), MaxDels: r.Range(0, 30), nextAddr: 0xa0, mbW: 1}
+	if r.Chance(1, 6) {
+		gn.mbW = 5 // a history in which governance keeps changing max-block-proposers
+	}
+	return gn
 }
 
 func endorserOf(a uint64) uint64 { return 0xe000 + a }
@@ -114,7 +119,7 @@ func (gn *Gen) Next(o *Obs) Op {
 		k string
 	}
 	alts := []alt{{34, "B"}, {addW, "AV"}, {6, "IS"}, {6, "DS"}, {5, "SE"}, {8, "WS"}, {7, "ON"}, {2, "SB"}, {delW, "AD"}, {6, "DE"}, {8, "WD"},
-		{2, "RW"}, {1, "MB"}, {1, "DN"}}
+		{2, "RW"}, {gn.mbW, "MB"}, {1, "DN"}}
 	tot := 0
 	for _, a := range alts {
 		tot += a.w
@@ -256,6 +261,9 @@ func (gn *Gen) Next(o *Obs) Op {
 	case "RW":
 		return Op{K: "RW", A: gn.anyVal(o), X: uint64(r.Range(1, 1_000_000))}
 	case "MB":
+		if o.ASize >= 2 && r.Chance(1, 2) {
+			return Op{K: "MB", X: o.ASize - uint64(r.Range(1, 2))} // below the number of active validators
+		}
 		return Op{K: "MB", X: uint64(r.Range(0, 12))}
 	default:
 		return Op{K: "DN", X: r.Uint64() % 2_000_000_000_000_000_000}
@@ -268,4 +276,40 @@ func (gn *Gen) Done(o Op, out Outcome) {
 		c := o
 		gn.lastOK = &c
 	}
+}
+
+// GenBig draws a history with max-block-proposers above 101 and a queue that grows through [2/3*101, 2/3*max) across
+// transition blocks: the PoA->PoS switch must wait for 2/3 of the configured (uncapped) maximum.
+func GenBig(r *hx.Rand) Case {
+	ep := uint32(r.Range(2, 4))
+	g := Cfg{Epoch: ep, Low: ep, Med: 2 * ep, High: 3 * ep, Cooldown: ep, EvictThr: 3 * ep, EvictInt: 2 * ep, MBP: uint64(r.Range(102, 200))}
+	if r.Chance(1, 2) {
+		g.TP = ep
+	}
+	need := (2*g.MBP + 2) / 3
+	total := int(need) + r.Range(-12, 6)
+	if total > 135 {
+		total = 135
+	}
+	c := Case{Cfg: g}
+	added := 0
+	addr := uint64(0x2000)
+	for added < total {
+		k := r.Range(4, 11)
+		if added < 60 {
+			k = r.Range(15, 25)
+		}
+		for i := 0; i < k && added < total; i++ {
+			addr++
+			added++
+			c.Ops = append(c.Ops, Op{K: "AV", A: addr, E: endorserOf(addr), M: uint64([]uint32{g.Low, g.Med, g.High}[r.Intn(3)]), X: minStake + uint64(r.Intn(100))})
+		}
+		for i := 0; i < int(ep); i++ {
+			c.Ops = append(c.Ops, Op{K: "B"})
+		}
+	}
+	for i := 0; i < int(3*ep); i++ {
+		c.Ops = append(c.Ops, Op{K: "B"})
+	}
+	return c
 }
